@@ -11,7 +11,7 @@ from impl import trees, treeanalysis, treeoutput, grammar, grammaranalysis, tran
 from props.c04 import HEADS
 
 ID = "C16"
-MODULE = ['TT.Props.C16', 'TT.Props.C16More']
+MODULE = ['TT.Props.C16', 'TT.Props.C16More', 'TT.Props.C16Tags']
 RULE = ("every node of all shapes up to 4/5 tokens and of random trees with gap degree 0..n/2 (gaps at several levels, "
         "unary nodes): terminal_blocks, gap_degree_node, gap_degree; agreement of gap degree > 0 with the bracket "
         "writer's refusal and with non-context-freeness of the extracted grammar; disco_order in both modes on "
@@ -121,9 +121,12 @@ def cli_case(rng):
         k = rng.choice([100, 101, 202, 250])          # more than a hundred sentences: progress reporting, batching
     ts = []
     text = ""
+    # tags are counted as they stand: placeholder-looking and decorated tags are tags like any other
+    pos_pool = rng.choice([treegen.POS, treegen.POS[:3] + ["EMPTY", "--", "NN-SB", "$,"], ["EMPTY", "NN"], ["--"]])
     for i in range(k):
         cfg = treegen.Cfg(n_min=5 if alldisc else 1, n_max=10 if alldisc else (4 if big else 7), p_disc=0.9 if alldisc else 0.5, none_fields=False,
-                          labels=treegen.PLAIN_LABELS, words=["a", "b", "cc", "Haus"], punct_words=[",", "."], edges=["HD", "--"])
+                          labels=treegen.PLAIN_LABELS, words=["a", "b", "cc", "Haus"], punct_words=[",", "."], edges=["HD", "--"],
+                          pos=pos_pool)
         t = treegen.gen_tree(rng, cfg)
         t.data['sid'] = i + 1
         s = io.StringIO()
@@ -146,6 +149,13 @@ def cli_case(rng):
         rc, out, err = cli.run_cli(["treeanalysis", src, "PosTags"])
         m = re.search(r"(\d+) different tags", out)
         lines.append(Line("corr", "pos_tags", [enc], m.group(1) if (rc == 0 and m) else "failed rc=%d" % rc))
+        if rc == 0 and m:
+            lines.append(Line("pred", "P.C16.tags", [enc, "- " + m.group(1)]))
+        # the same task through the API: one tag per token
+        task = treeanalysis.PosTags()
+        for t in ts:
+            task.run(clone_sid(t))
+        lines.append(Line("pred", "P.C16.tags", [enc, "%d %d" % (len(task.tags), len(set(task.tags)))]))
         rc, out, err = cli.run_cli(["treeanalysis", src, "SentenceCount"])
         m = re.search(r"(\d+) sentences", out)
         l = Line("pred", "P.C16.tree", [proto.enc_tree(ts[0]) if ts else "L 1 e n n n n n n n n n", "0"], note="SentenceCount")
